@@ -684,6 +684,19 @@ class Driver:
         ev = self._emit_event({"a": "StopRestart", "armed_after_stop": armed_after}, raised, with_disk=True)
         return ev
 
+    def stop_same(self):
+        """stop() of a gateway object that will be started again (asyncio MQTT gateway only: its transport survives)."""
+        raised = None
+        self.ops.append(["stop_same"])
+        try:
+            self._loop().run_until_complete(self.gw.stop())
+            if self.aproxy:
+                self.aproxy.sleepers = [f for f in self.aproxy.sleepers if not f.done()]
+        except Exception as exc:  # pylint: disable=broad-except
+            raised = type(exc).__name__
+        self.pers_started = False
+        return self._emit_event({"a": "StopSame"}, raised, with_disk=True)
+
     def snapshot(self, scratch):
         """C11: save the live state in both formats (scratch files), load each into a fresh gateway."""
         import shutil
@@ -741,6 +754,8 @@ def replay_ops(cfg, ops, persistence_file=None):
             drv.link(op[1])
         elif k == "send":
             drv.send(op[1])
+        elif k == "stop_same":
+            drv.stop_same()
         elif k == "recv":
             drv.recv(op[1], now=op[2])
         elif k == "pump":
